@@ -174,6 +174,9 @@ func CheckConc(e *Env) (int, error) {
 	if err := e.RefSelfTest(bins.plain["asm"]); err != nil {
 		return 2, err
 	}
+	if err := e.raceCanary(bins.race["asm"]); err != nil {
+		return 2, err
+	}
 
 	a := newAgg()
 	preemptSites := map[int]bool{}
@@ -358,6 +361,7 @@ func CheckConc(e *Env) (int, error) {
 		"runs_by_variant":                 a.Variants,
 		"runs_per_hour":                   int(float64(a.Runs) / time.Since(e.Start).Hours()),
 		"data_race_reports":               len(races),
+		"race_oracle_canary":              "before the batch: two simulated callers writing one variable under the scheduler were reported by the race detector, two callers writing private variables were not",
 		"real_vs_stub":                    "real: all of /repo with statement-level yield points inserted by go/ast through a build overlay (fiat arithmetic and the assembly run as atomic instructions), Go crypto, x/crypto, tuplehash, real goroutines, the Go race detector. stub: entropy devices; the scheduler replaces the Go scheduler's choice of who runs. model: per-call solo execution on an independent clone.",
 		"violations_of_other_properties_seen_and_ignored": a.OtherProps,
 	}
@@ -487,3 +491,31 @@ func (e *Env) raceTrial(raceBin, variant string, rf *replay.File, tape Tape, tag
 }
 
 var _ = bytes.Equal
+
+// raceCanary checks the race oracle itself before it is trusted: under the
+// serialising scheduler two tasks writing one variable must be reported by
+// the race detector, two tasks writing their own variables must not.
+func (e *Env) raceCanary(raceBin string) error {
+	for _, mode := range []string{"shared", "private"} {
+		logPrefix := filepath.Join(e.WorkDir, "canary-"+mode)
+		cmd := exec.Command(raceBin, "-noselftest", "-canary", mode)
+		cmd.Dir = e.WorkDir
+		cmd.Env = append(os.Environ(), "GOMAXPROCS=1", "GORACE=halt_on_error=1 exitcode=66 log_path="+logPrefix)
+		out, err := cmd.CombinedOutput()
+		code := 0
+		if ee, ok := err.(*exec.ExitError); ok {
+			code = ee.ExitCode()
+		} else if err != nil {
+			return harnessErr("race canary (%s): %v", mode, err)
+		}
+		report := readRaceLogs(logPrefix) + string(out)
+		switch {
+		case mode == "shared" && (code != 66 || !strings.Contains(report, "canaryTouch")):
+			return harnessErr("the race oracle is blind: two simulated callers wrote one variable under the scheduler and the race detector did not report it (exit %d):\n%s", code, report)
+		case mode == "private" && code != 0:
+			return harnessErr("the race oracle raises alarms of its own: two simulated callers that share nothing were reported (exit %d):\n%s", code, report)
+		}
+	}
+	Logf("race-oracle canary ok (shared variable reported, private variables silent)")
+	return nil
+}
